@@ -25,13 +25,19 @@ type ProgSpec struct {
 	Blocks         []string `json:"blocks,omitempty"`
 	Off            []string `json:"constructs_off,omitempty"`
 	Tags           []string `json:"tags_used"`
+	// NoGlobals: the set is created without any Globals
+	NoGlobals bool `json:"no_globals,omitempty"`
+	// TwoLoaders: the set has a stack of two loaders (see progDisk)
+	TwoLoaders bool `json:"two_loaders,omitempty"`
+	// ExportsXM: main.tpl defines the exported macro xm (a context key "xm" is then rejected)
+	ExportsXM bool `json:"exports_xm,omitempty"`
 }
 
 var textPool = []string{"A", " b ", "\n", "\n  ", "<p>", "</p> <b>", "ü€", "x&y", "  \n\n", "'q'", "T\n", "\t", "end.", "<i> </i>", "0", "\n\n", "\n\n\nX", "\n \t"}
 
 var allConstructs = []string{"text", "var", "y", "vsim", "if", "ifequal", "ifnotequal", "for", "with", "set", "macro", "import",
 	"include", "lazyinclude", "cycle", "ifchanged", "filtertag", "spaceless", "autoescape", "firstof", "widthratio",
-	"templatetag", "lorem", "now", "comment", "verbatim", "ssi", "ssiplain", "failexpr", "poly", "lazyvar", "big", "recmacro", "listlit", "ctxfunc", "hiddenrandom", "lookup"}
+	"templatetag", "lorem", "now", "comment", "verbatim", "ssi", "ssiplain", "failexpr", "poly", "lazyvar", "big", "recmacro", "listlit", "ctxfunc", "hiddenrandom", "lookup", "ctxmut"}
 
 // filters with the argument forms the generator writes for them
 var filterForms = map[string][]string{
@@ -232,6 +238,10 @@ func (p *progGen) node(b *strings.Builder, depth int) {
 	case "lookup":
 		// bare variable lookups, some of which fail for some context shapes
 		fmt.Fprintf(b, "{{ %s }}", p.pick([]string{"st.Name", "mp.k1", "lst.0", "strs.1", "n1.Foo", "mp.0", "s1.x", "fn_maybe", "poly.Name", "st.Next.Age", "nl.a.b", "lst.9", "f1.z"}))
+	case "ctxmut":
+		// the caller's own function edits the caller's Context map while it is being rendered
+		// (single-task checks only: a map shared by concurrent executions must not be written)
+		b.WriteString("{{ mutk }}{{ mut() }}{{ mutk }}")
 	case "ctxfunc":
 		// context functions that take the implicit *ExecutionContext, with various arities
 		switch p.g.Draw(5) {
@@ -536,16 +546,30 @@ func (p *progGen) incTarget() string {
 }
 
 // GenProgram draws a whole program (several files) from the gen tape.
-func GenProgram(g *Tape, size int) *ProgSpec {
+func GenProgram(g *Tape, size int) *ProgSpec { return GenProgramOpt(g, size, false) }
+
+// GenProgramOpt: allowMut admits the construct in which a context function edits the
+// caller's Context map in place (only for checks whose context maps belong to one task).
+func GenProgramOpt(g *Tape, size int, allowMut bool) *ProgSpec {
 	initVocab()
 	sp := &ProgSpec{Files: map[string]string{}, Main: "main.tpl"}
 	p := &progGen{g: g, sp: sp, off: map[string]bool{}, tags: map[string]bool{}, fileIdx: -1}
+	defer func() {
+		sp.TwoLoaders = g.Draw(4) == 0
+		if !allowMut {
+			return
+		}
+		sp.NoGlobals = g.Draw(4) == 0
+	}()
 	// swarm: switch a random third of the constructs off
 	for _, c := range allConstructs {
 		if c != "text" && c != "y" && g.Draw(3) == 0 {
 			p.off[c] = true
 			sp.Off = append(sp.Off, c)
 		}
+	}
+	if !allowMut {
+		p.off["ctxmut"] = true
 	}
 	if g.Draw(10) == 9 {
 		// a "plain" program: nothing but text and bare variable lookups
@@ -629,6 +653,13 @@ func GenProgram(g *Tape, size int) *ProgSpec {
 			mb.WriteString("{{ block.Super|upper }}{% endblock b2 %}")
 		}
 	} else {
+		if g.Draw(4) == 0 {
+			// an exported macro of the executing template: a context that carries a key of the
+			// same name is rejected before anything is rendered
+			p.use("macro")
+			mb.WriteString("{% macro xm(a) export %}<xm:{{ a }}>{% endmacro %}{{ xm(n1) }}")
+			sp.ExportsXM = true
+		}
 		p.budget = size
 		for p.budget > 0 {
 			p.body(&mb, 0)
@@ -661,6 +692,7 @@ type CtxDesc struct {
 	Variant   int  `json:"variant"`
 	MaybeFail bool `json:"maybe_fail,omitempty"` // fn_maybe() returns an error
 	BadKey    bool `json:"bad_key,omitempty"`    // contains a key that is not an identifier
+	Clash     bool `json:"clash,omitempty"`      // contains the key "xm": rejected by templates that export a macro of that name
 }
 
 type simUser struct {
@@ -712,11 +744,13 @@ func (s simStringer) String() string { return "Stringer(" + s.s + ")" }
 
 func GenCtxDesc(g *Tape) CtxDesc {
 	d := CtxDesc{Variant: g.Draw(3)}
-	switch g.Draw(8) {
+	switch g.Draw(9) {
 	case 6:
 		d.MaybeFail = true
 	case 7:
 		d.BadKey = true
+	case 8:
+		d.Clash = true
 	}
 	return d
 }
@@ -771,7 +805,8 @@ func (w *World) BuildCtx(d CtxDesc) pongo2.Context {
 			}
 			return "ok", nil
 		},
-		"y": func() (string, error) { return "", w.Callback(1) },
+		"y":    func() (string, error) { return "", w.Callback(1) },
+		"mutk": "M0",
 		"yv": func(x *pongo2.Value) (*pongo2.Value, error) {
 			if err := w.Callback(2); err != nil {
 				return nil, err
@@ -779,8 +814,12 @@ func (w *World) BuildCtx(d CtxDesc) pongo2.Context {
 			return x, nil
 		},
 	}
+	ctx["mut"] = func() string { ctx["mutk"] = "M1"; return "" }
 	if d.BadKey {
 		ctx["bad-key"] = "plain string value"
+	}
+	if d.Clash {
+		ctx["xm"] = "clashes with the exported macro xm"
 	}
 	if v == 2 {
 		ctx["glob"] = "ctx-overrides-global" // a context key shadows the set's global of the same name
